@@ -53,3 +53,167 @@ def arrconst_runner(lines):
     if "<bundle>" in verdict:
         out["0"] = "reject | orc=FAIL(%s)" % verdict["<bundle>"][:200]
     return out
+
+
+# ------------------------------------------------------------------------------------------------
+# C18: the const API in const items
+# ------------------------------------------------------------------------------------------------
+
+TYS = {
+    "u8": ("u8", lambda i: "%du8" % ((i * 7 + 3) % 256), 1),
+    "u32": ("u32", lambda i: "%du32" % (i * 1000 + 1), 4),
+    "t2": ("(u8, u16)", lambda i: "(%du8, %du16)" % (i % 256, (i * 3 + 1) % 65536), 4),
+    "unit": ("()", lambda i: "()", 0),
+}
+
+
+def lit(ty, lo, count):
+    return "[" + ", ".join(TYS[ty][1](lo + i) for i in range(count)) + "]"
+
+
+WRITE_SLICE = "let mut j = 0; while j < s.len() { s[j] = V[base + j]; j += 1; }"
+
+
+def constapi_item(line):
+    """-> (code, expect) where expect is 'accept' or 'panic' (the documented panic)"""
+    kv = kvs(line)
+    fn, ty = kv["fn"], kv.get("ty", "u8")
+    n, ln, k = int(kv.get("n", 0)), int(kv.get("len", 0)), int(kv.get("k", 0))
+    T = TYS[ty][0]
+    GA = "GenericArray::<%s, U%d>" % (T, n)
+    GT = "GenericArray<%s, U%d>" % (T, n)
+    D = "const D: [%s; %d] = %s;\n" % (T, ln, lit(ty, 0, ln))
+    V = "const V: [%s; %d] = %s;\n" % (T, ln, lit(ty, 100, ln))
+    if fn == "len":
+        return "const L: usize = %s::len();\npub fn check() -> bool { L == %d && %s::len() == %d }" % (GA, n, GA, n), "accept"
+    if fn == "chunks_from_slice":
+        if n == 0 and ln > 0:
+            return D + "const R: (&[%s], &[%s]) = %s::chunks_from_slice(&D);\npub fn check() -> bool { R.0.len() == 0 }" % (GT, T, GA), "panic"
+        dv, md = (ln // n, ln % n) if n else (0, 0)
+        return D + ("const R: (&[%s], &[%s]) = %s::chunks_from_slice(&D);\n"
+                    "pub fn check() -> bool {\n    let (c, r) = R;\n    let (c2, r2) = %s::chunks_from_slice(&D);\n"
+                    "    c.len() == %d && r.len() == %d && c == c2 && r == r2 && c.iter().flat_map(|a| a.iter()).chain(r.iter()).eq(D.iter())\n}") % (GT, T, GA, GA, dv, md), "accept"
+    if fn == "chunks_from_slice_mut":
+        dv, md = (ln // n, ln % n) if n else (0, 0)
+        code = D + V + ("const fn run(mut d: [%s; %d]) -> ([%s; %d], usize, usize) {\n    let nc; let nr;\n    {\n"
+                        "        let (c, r) = %s::chunks_from_slice_mut(&mut d);\n        nc = c.len(); nr = r.len();\n"
+                        "        let mut i = 0;\n        while i < c.len() { let s = c[i].as_mut_slice(); let base = i * %d; %s i += 1; }\n"
+                        "        { let s = r; let base = nc * %d; %s }\n    }\n    (d, nc, nr)\n}\n"
+                        "const W: ([%s; %d], usize, usize) = run(D);\n"
+                        "pub fn check() -> bool { W.0 == V && W.1 == %d && W.2 == %d && run(D) == W }") % (
+            T, ln, T, ln, GA, n, WRITE_SLICE, n, WRITE_SLICE, T, ln, dv, md)
+        return code, ("panic" if n == 0 and ln > 0 else "accept")
+    if fn == "from_slice":
+        code = D + "const R: &%s = %s::from_slice(&D);\npub fn check() -> bool { R.as_slice() == &D[..] && %s::from_slice(&D) == R }" % (GT, GA, GA)
+        return code, ("accept" if ln == n else "panic")
+    if fn == "try_from_slice":
+        code = D + ("const R: Result<&%s, generic_array::LengthError> = %s::try_from_slice(&D);\n"
+                    "pub fn check() -> bool { (match R { Ok(a) => %s && a.as_slice() == &D[..], Err(_) => %s }) && R.is_ok() == %s::try_from_slice(&D).is_ok() }") % (
+            GT, GA, "true" if ln == n else "false", "false" if ln == n else "true", GA)
+        return code, "accept"
+    if fn == "from_mut_slice":
+        code = D + V + ("const fn run(mut d: [%s; %d]) -> [%s; %d] {\n    { let a = %s::from_mut_slice(&mut d); let s = a.as_mut_slice(); let base = 0; %s }\n    d\n}\n"
+                        "const W: [%s; %d] = run(D);\npub fn check() -> bool { W == V && run(D) == V }") % (T, ln, T, ln, GA, WRITE_SLICE, T, ln)
+        return code, ("accept" if ln == n else "panic")
+    if fn == "try_from_mut_slice":
+        code = D + V + ("const fn run(mut d: [%s; %d]) -> ([%s; %d], bool) {\n    let ok = match %s::try_from_mut_slice(&mut d) {\n"
+                        "        Ok(a) => { let s = a.as_mut_slice(); let base = 0; %s true }\n        Err(_) => false,\n    };\n    (d, ok)\n}\n"
+                        "const W: ([%s; %d], bool) = run(D);\npub fn check() -> bool { W.1 == %s && W.0 == %s && run(D) == W }") % (
+            T, ln, T, ln, GA, WRITE_SLICE, T, ln, "true" if ln == n else "false", "V" if ln == n else "D")
+        return code, "accept"
+    # chunk-array based data: k arrays of n
+    rows = ["[" + ", ".join(TYS[ty][1](i * n + j) for j in range(n)) + "]" for i in range(k)]
+    FLAT = "const FLAT: [%s; %d] = %s;\n" % (T, k * n, lit(ty, 0, k * n))
+    VK = "const V: [%s; %d] = %s;\n" % (T, k * n, lit(ty, 100, k * n))
+    CG = "const C: [%s; %d] = [%s];\n" % (GT, k, ", ".join("%s::from_array(%s)" % (GA, r) for r in rows))
+    CN = "const C: [[%s; %d]; %d] = [%s];\n" % (T, n, k, ", ".join(rows))
+    if fn == "slice_from_chunks":
+        return CG + FLAT + ("const R: &[%s] = %s::slice_from_chunks(&C);\n"
+                            "pub fn check() -> bool { R.len() == %d && R == &FLAT[..] && %s::slice_from_chunks(&C) == R }") % (T, GA, k * n, GA), "accept"
+    if fn == "slice_from_chunks_mut":
+        return CG + VK + ("const fn run(mut c: [%s; %d]) -> [%s; %d] {\n    { let s = %s::slice_from_chunks_mut(&mut c); let base = 0; %s }\n    c\n}\n"
+                          "const W: [%s; %d] = run(C);\n"
+                          "pub fn check() -> bool { %s::slice_from_chunks(&W) == &V[..] && run(C) == W }") % (GT, k, GT, k, GA, WRITE_SLICE, GT, k, GA), "accept"
+    if fn == "from_chunks":
+        return CN + ("const R: &[%s] = %s::from_chunks(&C);\nconst S: &[[%s; %d]] = %s::into_chunks(R);\n"
+                     "pub fn check() -> bool { R.len() == %d && S == &C[..] && R.iter().zip(C.iter()).all(|(a, b)| a.as_slice() == &b[..]) }") % (
+            GT, GA, T, n, GA, k), "accept"
+    if fn == "into_chunks":
+        return CG + ("const S: &[[%s; %d]] = %s::into_chunks(&C);\nconst R: &[%s] = %s::from_chunks(S);\n"
+                     "pub fn check() -> bool { S.len() == %d && R == &C[..] && S.iter().zip(C.iter()).all(|(b, a)| a.as_slice() == &b[..]) }") % (
+            T, n, GA, GT, GA, k), "accept"
+    if fn == "from_chunks_mut":
+        return CN + VK + ("const fn run(mut c: [[%s; %d]; %d]) -> [[%s; %d]; %d] {\n    {\n        let r = %s::from_chunks_mut(&mut c);\n        let mut i = 0;\n"
+                          "        while i < r.len() { let s = r[i].as_mut_slice(); let base = i * %d; %s i += 1; }\n    }\n    c\n}\n"
+                          "const W: [[%s; %d]; %d] = run(C);\n"
+                          "pub fn check() -> bool { W.iter().flat_map(|a| a.iter()).eq(V.iter()) && run(C) == W }") % (T, n, k, T, n, k, GA, n, WRITE_SLICE, T, n, k), "accept"
+    if fn == "into_chunks_mut":
+        return CG + VK + ("const fn run(mut c: [%s; %d]) -> [%s; %d] {\n    {\n        let r: &mut [[%s; %d]] = %s::into_chunks_mut(&mut c);\n        let mut i = 0;\n"
+                          "        while i < r.len() { let s = &mut r[i]; let base = i * %d; %s i += 1; }\n    }\n    c\n}\n"
+                          "const W: [%s; %d] = run(C);\n"
+                          "pub fn check() -> bool { %s::slice_from_chunks(&W) == &V[..] && run(C) == W }") % (GT, k, GT, k, T, n, GA, n, WRITE_SLICE, GT, k, GA), "accept"
+    # whole-array forms (len = n)
+    D = "const D: [%s; %d] = %s;\n" % (T, n, lit(ty, 0, n))
+    V = "const V: [%s; %d] = %s;\n" % (T, n, lit(ty, 100, n))
+    if fn in ("from_array", "into_array"):
+        return D + ("const A: %s = %s::from_array(D);\nconst B: [%s; %d] = %s::into_array(A);\n"
+                    "pub fn check() -> bool { A.as_slice() == &D[..] && B == D && %s::from_array(D) == A && %s::into_array(A) == B }") % (
+            GT, GA, T, n, GA, GA, "<%s>" % GT), "accept"
+    if fn == "as_slice":
+        return D + "const A: %s = %s::from_array(D);\nconst S: &[%s] = A.as_slice();\npub fn check() -> bool { S == &D[..] && S.len() == %d }" % (GT, GA, T, n), "accept"
+    if fn == "as_mut_slice":
+        return D + V + ("const fn run(mut a: %s) -> %s { { let s = a.as_mut_slice(); let base = 0; %s } a }\n"
+                        "const W: %s = run(%s::from_array(D));\npub fn check() -> bool { W.as_slice() == &V[..] && run(%s::from_array(D)) == W }") % (
+            GT, GT, WRITE_SLICE, GT, GA, GA), "accept"
+    if fn == "uninit":
+        return V + ("const A: %s = {\n    let mut u = %s::uninit();\n    { let s = u.as_mut_slice(); let mut j = 0; while j < s.len() { s[j] = core::mem::MaybeUninit::new(V[j]); j += 1; } }\n"
+                    "    unsafe { %s::assume_init(u) }\n};\npub fn check() -> bool { A.as_slice() == &V[..] }") % (GT, GA, GA), "accept"
+    raise ValueError("unknown fn " + fn)
+
+
+def classify_reject(v):
+    """verdict string from corpus.accept_bundle / compile_one -> model vocabulary"""
+    if "E0080" in v and "panicked" in v:
+        return "panic"
+    if "E0080" in v:
+        return "ub"
+    if "E0015" in v or "E0658" in v:
+        return "notconst"
+    return "reject"
+
+
+def constapi_runner(lines):
+    import concurrent.futures
+    built = [constapi_item(l) for l in lines]
+    acc = [(str(k), c) for k, (c, e) in enumerate(built) if e == "accept"]
+    rej = [(k, c) for k, (c, e) in enumerate(built) if e != "accept"]
+    out = {}
+    # accept items: a dozen bundles compiled in parallel
+    parts = [acc[i::12] for i in range(12) if acc[i::12]]
+    with concurrent.futures.ThreadPoolExecutor(max_workers=12) as ex:
+        results = list(ex.map(lambda p: corpus.accept_bundle(p)[0], parts))
+    verdict = {}
+    for r in results:
+        verdict.update({k: v for k, v in r.items() if k != "<bundle>"})
+        if "<bundle>" in r:
+            verdict.setdefault("<bundle>", r["<bundle>"])
+    for k, _ in acc:
+        v = verdict.get(k, "reject:?")
+        if v in ("ok", "ok-alone"):
+            out[k] = "accept | orc=ok"
+        elif v.startswith("FAIL"):
+            out[k] = "accept | orc=FAIL(compile-time value differs from run time or from the expected contents)"
+        else:
+            out[k] = "%s | orc=FAIL(%s)" % (classify_reject(v), v.replace("|", "/")[:220])
+    # documented panics: compiled one by one, must be rejected as "evaluation panicked"
+    rs = corpus.compile_many([corpus.PRELUDE + c for _, c in rej], "check")
+    for (k, _), r in zip(rej, rs):
+        if r["ok"]:
+            out[str(k)] = "accept | orc=FAIL(the documented panic did not happen at compile time)"
+        else:
+            v = "reject:%s: %s" % (",".join(sorted(set(e["code"] for e in r["errors"]))), r["errors"][0]["message"][:160])
+            cls = classify_reject(v)
+            out[str(k)] = "%s | orc=%s" % (cls, "ok" if cls == "panic" else "FAIL(%s)" % v.replace("|", "/")[:220])
+    if "<bundle>" in verdict and acc:
+        out[acc[0][0]] = "reject | orc=FAIL(%s)" % verdict["<bundle>"][:200]
+    return out
